@@ -206,13 +206,18 @@ class HCCOFit:
         self.slope, self.anchor_f, self.anchor_e, self.horz, self.xi = slope, anchor_f, anchor_e, horz, xi
         self.branch = branch
         self.f_idle = f0
+        # when a rule clamps the break point it is, by definition, log10 of a calibration flow: evaluating exactly at
+        # that calibration flow hits the break exactly (same log10 of the same number) and the documented ">=" applies
+        self.clamp_flow = None if branch == 'normal_bilinear' else (f2 if branch.startswith('a_') else f1)
 
     def values(self, ff: float, t: float, p: float) -> tuple[list, str]:
         """Acceptable values for ff > 0 (two at a segment tie) and the segment."""
         lf = math.log10(ff)
         lower = p10(self.slope * (lf - self.anchor_f) + self.anchor_e)
         upper = p10(self.horz)
-        if abs(lf - self.xi) <= 1e-12 * max(1.0, abs(self.xi)):
+        if self.clamp_flow is not None and ff == self.clamp_flow:
+            cands, seg = [upper], 'horizontal_at_clamped_break'
+        elif abs(lf - self.xi) <= 1e-12 * max(1.0, abs(self.xi)):
             cands, seg = [lower, upper], 'tie'
         elif lf < self.xi:
             cands, seg = [lower], 'slanted'
@@ -509,10 +514,13 @@ def cat_case(draw):
 @st.composite
 def pts_st(draw, cal, max_n=16):
     n = draw(st.integers(1, max_n))
+    # every third case also evaluates exactly at the four calibration flows (the nodes of every piecewise fit)
+    at_nodes = draw(st.integers(0, 2)) == 0
     if draw(st.integers(0, 5)) == 0:
         a = draw(alt_st())
-        return [[a, draw(ff_eval_st(cal))] for _ in range(n)], True
-    return [[draw(alt_st()), draw(ff_eval_st(cal))] for _ in range(n)], False
+        return [[a, draw(ff_eval_st(cal))] for _ in range(n)] + ([[a, f] for f in cal] if at_nodes else []), True
+    pts = [[draw(alt_st()), draw(ff_eval_st(cal))] for _ in range(n)]
+    return pts + ([[pts[0][0], f] for f in cal] if at_nodes else []), False
 
 
 @st.composite
